@@ -184,9 +184,13 @@ impl Number {
         }
         let exp = num.as_int().unwrap();
         let two = BigInt::from(2i64);
-        let exp = two.pow(exp as u32);
+        let factor = Numeric::from(two.pow(exp.abs() as u32));
         Ok(Number {
-            value: &self.value * &Numeric::from(exp),
+            value: if exp >= 0 {
+                &self.value * &factor
+            } else {
+                &self.value / &factor
+            },
             unit: self.unit.clone(),
         })
     }
@@ -205,9 +209,13 @@ impl Number {
         }
         let exp = num.as_int().unwrap();
         let two = BigInt::from(2i64);
-        let exp = two.pow(exp as u32);
+        let factor = Numeric::from(two.pow(exp.abs() as u32));
         Ok(Number {
-            value: &self.value / &Numeric::from(exp),
+            value: if exp >= 0 {
+                &self.value / &factor
+            } else {
+                &self.value * &factor
+            },
             unit: self.unit.clone(),
         })
     }
